@@ -47,6 +47,8 @@ CASES = [
      {"SeedTapes": "QuickSeedTapes"}, ["C12_ResultUsable"], "View", None),
     ("DEV_PlaceholderBetweenElements", "MC_Sub", {"Depth": "1", "Types": '{"int"}', "ContainerSet": '"level1"'},
      {"SeedTapes": "QuickSeedTapes"}, ["C12_ResultUsable"], "View", None),
+    ("DEV_EllipsisKeyCarriesValue", "MC_Sub", {"Depth": "1", "Types": '{"int"}', "ContainerSet": '"level1"'},
+     {"SeedTapes": "QuickSeedTapes"}, ["C12_OnlySubstitutionError"], "View", None),
     ("DEV_PropsEqSchemaVsValue", "MC_Eq", {"Depth": "1"}, {"KnownMarkerVsAny": "Never2"},
      ["C15_EqualMeansSameVerdicts"], None, None),
     ("DEV_ReprEmptyListDropsLen", "MC_Repr", {"Depth": "1"}, {"KnownEmptyListLen": "Never1"},
